@@ -544,8 +544,8 @@ func (c *RawClient) onResponse(msg *stun.Message) {
 	case code == 438 && p.authed && mode == "ok" && p.tries < 2 && !hasFlag(p.op, "noretry"):
 		retry = true
 	}
-	if !retry {
-		return
+	if !retry || p.op.Kind == "connbind" {
+		return // (a ConnectionBind sent on the control transport is not retried)
 	}
 	b, tid := c.buildRequest(p.op, true, p.tries+1)
 	c.tids[p.op.ID] = tid
